@@ -666,7 +666,16 @@ func vacCmd(args []string) int {
 	isChild, from, to := childRange()
 	if !isChild {
 		NewEmitter(*outp+".ops", *outp+".exp").Close()
-		isolate(st, *n, *outp, 40*time.Second, func(int, []string, string) bool { return false })
+		isolate(st, *n, *outp, 40*time.Second, func(idx int, lines []string, output string) bool {
+			// F42 / F22 (dependency): with a node cache mast modifies node objects it shares through the cache; a
+			// node that ends up holding one key twice makes mast's own validateNode panic the next time it is copied
+			if len(lines) > 0 && !strings.Contains(lines[0], "node_cache_entries=0") && strings.Contains(output, "mast.validateNode") &&
+				strings.Contains(output, "sweet merciful crap") && st.known("F42") {
+				st.Count("known_F42_panic")
+				return true
+			}
+			return false
+		})
 		st.Write(*outp + ".stats.json")
 		fmt.Printf("vac: %d cases, %d oracle failures\n", st.Cases, len(st.Failures))
 		return 0
@@ -677,7 +686,7 @@ func vacCmd(args []string) int {
 		r := root.Fork(i)
 		b, store := sqlh.Bucket()
 		c := &vacCase{st: st, r: r, id: fmt.Sprintf("vac-%d-%d", *seed, i), bucket: b, store: store, epn: gen.Pick(r, []int{2, 4, 4096}), cache: gen.Pick(r, []int{0, 0, 16, 1000})}
-		progressLine(fmt.Sprintf("CASE %d", i))
+		progressLine(fmt.Sprintf("CASE %d node_cache_entries=%d", i, c.cache))
 		c.run()
 		st.Cases++
 		if i < 1 {
